@@ -309,7 +309,7 @@ func (x *Exec) intrinsic(fr *Frame, ins ssa.Instruction, fn *ssa.Function, args 
 		var bargs []Value
 		var facts []*Term
 		for _, p := range f.Params {
-			b := ts.Bound(p.Name(), x.w.sortOf(p.Type()))
+			b := ts.BoundAt(p.Name(), x.w.sortOf(p.Type()), x.quantDepth)
 			bvars = append(bvars, b)
 			bargs = append(bargs, b)
 			facts = append(facts, x.w.validFacts(b, p.Type(), st.alloc, 0))
@@ -317,7 +317,9 @@ func (x *Exec) intrinsic(fr *Frame, ins ssa.Instruction, fn *ssa.Function, args 
 		sub := st.clone()
 		sub.guard = ts.True()
 		x.specDepth++
+		x.quantDepth++
 		res, nst := x.callFunction(f, bargs, binds, sub)
+		x.quantDepth--
 		x.specDepth--
 		if nst == nil {
 			unsup("quantifier body does not return")
@@ -347,6 +349,15 @@ func (x *Exec) intrinsic(fr *Frame, ins ssa.Instruction, fn *ssa.Function, args 
 			x.declaredModifies = append(x.declaredModifies, modEntry{rowOf: x.w.sArr(s), comp: n})
 		}
 		return nil
+	case "Snap":
+		// ghost copy of a slice: fresh backing array holding the current contents
+		s := args[0].(*Term)
+		et := fn.Params[0].Type().Underlying().(*types.Slice).Elem()
+		n, srt := x.elemComp(et)
+		h := x.comp(st, n, srt)
+		r := x.allocRef(st, "snap")
+		st.heap[n] = ts.Store(h, r, ts.Select(h, x.w.sArr(s)))
+		return x.w.mkSlice(r, x.w.sOff(s), x.w.sLen(s), x.w.sCap(s))
 	case "Old":
 		return args[0]
 	case "Implies":
@@ -650,7 +661,7 @@ func (x *Exec) dispatch(fr *Frame, ins ssa.Instruction, c *ssa.CallCommon, recv 
 			st.heap, st.alloc, st.guard = sa.heap, sa.alloc, sa.guard
 			return ra, true
 		}
-		m := x.mergeStates([]*Term{sa.guard, sb.guard}, []*State{sa, sb})
+		m := x.mergeStatesRel([]*Term{sa.guard, sb.guard}, []*Term{cond, ts.Not(cond)}, []*State{sa, sb})
 		st.heap, st.alloc, st.guard = m.heap, m.alloc, m.guard
 		if ra == nil && rb == nil {
 			return nil, true
@@ -699,7 +710,7 @@ func (x *Exec) dispatch(fr *Frame, ins ssa.Instruction, c *ssa.CallCommon, recv 
 	}
 	x.noOpaqueDispatch++
 	defer func() { x.noOpaqueDispatch-- }()
-	var conds []*Term
+	var conds, rels []*Term
 	var sts []*State
 	var vals []Value
 	rest := st.guard
@@ -721,6 +732,7 @@ func (x *Exec) dispatch(fr *Frame, ins ssa.Instruction, c *ssa.CallCommon, recv 
 			continue
 		}
 		conds = append(conds, sub.guard)
+		rels = append(rels, is)
 		sts = append(sts, sub)
 		vals = append(vals, v)
 	}
@@ -729,6 +741,7 @@ func (x *Exec) dispatch(fr *Frame, ins ssa.Instruction, c *ssa.CallCommon, recv 
 		sub.guard = rest
 		x.note("dynamic call %s.%s on a type outside the contract's vocabulary: result arbitrary, no modelled state changed, no panic (assumed)", shortTypeString(c.Value.Type()), c.Method.Name())
 		conds = append(conds, rest)
+		rels = append(rels, ts.True())
 		sts = append(sts, sub)
 		vals = append(vals, x.havocResult(sub, "invoke_"+c.Method.Name(), c.Signature().Results()))
 	}
@@ -736,14 +749,14 @@ func (x *Exec) dispatch(fr *Frame, ins ssa.Instruction, c *ssa.CallCommon, recv 
 		st.guard = ts.False()
 		return x.havocResult(st, "noreach", c.Signature().Results()), true
 	}
-	m := x.mergeStates(conds, sts)
+	m := x.mergeStatesRel(conds, rels, sts)
 	st.heap, st.alloc, st.guard = m.heap, m.alloc, m.guard
 	var cur Value
 	for i := len(vals) - 1; i >= 0; i-- {
 		if cur == nil {
 			cur = vals[i]
 		} else if vals[i] != nil {
-			cur = x.mergeVals(conds[i], vals[i], cur)
+			cur = x.mergeVals(rels[i], vals[i], cur)
 		}
 	}
 	return cur, true
